@@ -311,3 +311,349 @@ Definition agrees_with_Kin (t : rtopo) : bool :=
   | None => false
   | Some tr => res_eqb unit_eqb (gen_assert_isobar_topology t) (Ok tt) && agrees_tree t tr
   end.
+
+(* ---------------------------------------------------------------- refinement: graph-level code vs the isobar tree *)
+Inductive embeds (es : list redge) : redge -> tree -> Prop :=
+| emb_leaf e : In e es -> re_end e = None -> embeds es e (Leaf (re_id e))
+| emb_node e n p c1 c2 a b : In e es -> re_end e = Some n ->
+    ingoing_to es n = [p] -> outgoing_from es n = [c1; c2] ->
+    embeds es c1 a -> embeds es c2 b -> embeds es e (Node (re_id e) a b).
+
+Lemma embeds_eid es e tr : embeds es e tr -> eid tr = re_id e.
+Proof. destruct 1; reflexivity. Qed.
+
+Lemma outgoing_In es n c : In c (outgoing_from es n) -> In c es /\ re_orig c = Some n.
+Proof.
+  unfold outgoing_from. rewrite filter_In. intros [Hin Ho]. split; [exact Hin|].
+  destruct (re_orig c) as [m|]; [|discriminate]. simpl in Ho. apply Z.eqb_eq in Ho. now subst.
+Qed.
+
+Lemma build_embeds es : forall f e tr, In e es -> build f es e = Some tr -> embeds es e tr.
+Proof.
+  induction f as [|f IH]; intros e tr Hin H; [discriminate|].
+  cbn [build] in H. destruct (re_end e) as [n|] eqn:He.
+  - destruct (ingoing_to es n) as [|p [|? ?]] eqn:Hi; try discriminate.
+    destruct (outgoing_from es n) as [|c1 [|c2 [|? ?]]] eqn:Ho; try discriminate.
+    destruct (build f es c1) as [a|] eqn:Ha; [|discriminate].
+    destruct (build f es c2) as [b|] eqn:Hb; [|discriminate].
+    injection H as <-.
+    assert (H1 : In c1 es) by (apply (outgoing_In es n); rewrite Ho; now left).
+    assert (H2 : In c2 es) by (apply (outgoing_In es n); rewrite Ho; right; now left).
+    eapply emb_node; eauto.
+  - injection H as <-. now apply emb_leaf.
+Qed.
+
+Lemma tree_of_topo_embeds t tr : tree_of_topo t = Some tr ->
+  exists e0, In e0 (rt_edges t) /\ re_orig e0 = None /\ embeds (rt_edges t) e0 tr.
+Proof.
+  unfold tree_of_topo.
+  destruct (filter (fun e => oZ_eqb (re_orig e) None) (rt_edges t)) as [|e0 [|? ?]] eqn:Hf; try discriminate.
+  assert (Hin : In e0 (filter (fun e => oZ_eqb (re_orig e) None) (rt_edges t))) by (rewrite Hf; now left).
+  apply filter_In in Hin. destruct Hin as [Hin Ho].
+  destruct (re_end e0) eqn:He; [|discriminate]. intros H.
+  exists e0. repeat split; auto.
+  - destruct (re_orig e0); [discriminate|reflexivity].
+  - eapply build_embeds; eauto.
+Qed.
+
+(* ids of a filtered sublist stay distinct *)
+Lemma NoDup_map_filter (f : redge -> bool) es : NoDup (map re_id es) -> NoDup (map re_id (filter f es)).
+Proof.
+  induction es as [|x es IH]; simpl; intros H; [constructor|].
+  inversion H as [|? ? Hni Hnd]; subst. destruct (f x); simpl; [|now apply IH].
+  constructor; [|now apply IH]. intros Hin. apply Hni.
+  apply in_map_iff in Hin. destruct Hin as (y & Hy & Hyin). apply filter_In in Hyin.
+  apply in_map_iff. exists y. tauto.
+Qed.
+
+Lemma set_of_pair x y : x <> y -> py_remove x (set_of [x; y]) = Ok [y] /\ py_remove y (set_of [x; y]) = Ok [x].
+Proof.
+  intros Hne. unfold set_of. cbn [Kin.sort Kin.insert].
+  destruct (Z.leb_spec x y) as [Hle|Hgt]; cbn [dedup_sorted].
+  - destruct (Z.eqb_spec x y); [contradiction|]. cbn [py_remove].
+    rewrite Z.eqb_refl. destruct (Z.eqb_spec x y); [contradiction|]. rewrite Z.eqb_refl. cbn [bind]. split; reflexivity.
+  - destruct (Z.eqb_spec y x); [congruence|]. cbn [py_remove].
+    rewrite Z.eqb_refl. destruct (Z.eqb_spec y x); [congruence|]. rewrite Z.eqb_refl. cbn [bind]. split; reflexivity.
+Qed.
+
+(* the two edges leaving a two-body node are each other's sibling, and the edge entering it is their parent *)
+Theorem gen_node_links t n p c1 c2 : wf_ids t ->
+  ingoing_to (rt_edges t) n = [p] -> outgoing_from (rt_edges t) n = [c1; c2] ->
+  gen_get_sibling_state_id t (re_id c1) = Ok (re_id c2) /\ gen_get_sibling_state_id t (re_id c2) = Ok (re_id c1) /\
+  gen_get_parent_id t (re_id c1) = Ok (Some (re_id p)) /\ gen_get_parent_id t (re_id c2) = Ok (Some (re_id p)).
+Proof.
+  intros Hwf Hi Ho.
+  assert (H1 : In c1 (rt_edges t) /\ re_orig c1 = Some n) by (apply outgoing_In; rewrite Ho; now left).
+  assert (H2 : In c2 (rt_edges t) /\ re_orig c2 = Some n) by (apply outgoing_In; rewrite Ho; right; now left).
+  destruct H1 as [I1 O1], H2 as [I2 O2].
+  assert (Hne : re_id c1 <> re_id c2).
+  { pose proof (NoDup_map_filter (fun e => oZ_eqb (re_orig e) (Some n)) _ Hwf) as Hnd.
+    fold (outgoing_from (rt_edges t) n) in Hnd. rewrite Ho in Hnd. simpl in Hnd.
+    inversion Hnd as [|? ? Hni _]; subst. intros E. apply Hni. now left. }
+  assert (Hout : topo_outgoing t n = set_of [re_id c1; re_id c2]) by (unfold topo_outgoing; now rewrite Ho).
+  assert (Hing : topo_ingoing t n = [re_id p]) by (unfold topo_ingoing; now rewrite Hi).
+  destruct (set_of_pair _ _ Hne) as [R1 R2].
+  unfold gen_get_sibling_state_id, gen_get_parent_id, topo_edge.
+  rewrite (topo_edge_in_unique _ c1 Hwf I1), (topo_edge_in_unique _ c2 Hwf I2). cbn [bind].
+  rewrite O1, O2, Hout, R1, R2, Hing. cbn. repeat split; reflexivity.
+Qed.
+
+Fixpoint tree_links (t : rtopo) (tr : tree) : Prop :=
+  match tr with
+  | Leaf _ => True
+  | Node i a b =>
+      gen_get_sibling_state_id t (eid a) = Ok (eid b) /\ gen_get_sibling_state_id t (eid b) = Ok (eid a) /\
+      gen_get_parent_id t (eid a) = Ok (Some i) /\ gen_get_parent_id t (eid b) = Ok (Some i) /\
+      tree_links t a /\ tree_links t b
+  end.
+
+Lemma embeds_links t : wf_ids t -> forall e tr, embeds (rt_edges t) e tr -> tree_links t tr.
+Proof.
+  intros Hwf e tr H. induction H as [e Hin He | e n p c1 c2 a b Hin He Hi Ho Ha IHa Hb IHb]; [exact I|].
+  cbn [tree_links]. rewrite (embeds_eid _ _ _ Ha), (embeds_eid _ _ _ Hb).
+  assert (Hp : p = e).
+  { assert (Hm : In e (ingoing_to (rt_edges t) n)).
+    { unfold ingoing_to. apply filter_In. split; [exact Hin|]. rewrite He. simpl. apply Z.eqb_refl. }
+    rewrite Hi in Hm. destruct Hm as [->|[]]. reflexivity. }
+  subst p. destruct (gen_node_links t n e c1 c2 Hwf Hi Ho) as (S1 & S2 & P1 & P2).
+  repeat split; assumption.
+Qed.
+
+(** every node of the isobar tree read off a topology with distinct edge ids: the translated code pairs exactly its
+    two children as siblings and names the node's own edge as their parent *)
+Theorem gen_links_refine_tree t tr : wf_ids t -> tree_of_topo t = Some tr -> tree_links t tr.
+Proof.
+  intros Hwf H. destruct (tree_of_topo_embeds _ _ H) as (e0 & _ & _ & He). eapply embeds_links; eauto.
+Qed.
+
+(** the opposite-helicity flag of the code is the tuple comparison of whatever the code attaches to the two siblings *)
+Theorem gen_opposite_is_tuple_comparison t x y ax ay :
+  gen_get_sibling_state_id t x = Ok y -> gen_determine_attached_final_state t x = Ok ax ->
+  gen_determine_attached_final_state t y = Ok ay -> gen_is_opposite_helicity_state t x = Ok (lex_ltb ay ax).
+Proof.
+  intros Hs Hx Hy. unfold gen_is_opposite_helicity_state. rewrite Hs. cbn [bind]. rewrite Hx. cbn [bind].
+  rewrite Hy. reflexivity.
+Qed.
+
+Fixpoint height (tr : tree) : nat :=
+  match tr with Leaf _ => O | Node _ a b => S (Nat.max (height a) (height b)) end.
+
+Lemma build_height es : forall f e tr, build f es e = Some tr -> (height tr < f)%nat.
+Proof.
+  induction f as [|f IH]; intros e tr H; [discriminate|].
+  cbn [build] in H. destruct (re_end e) as [n|].
+  - destruct (ingoing_to es n) as [|p [|? ?]]; try discriminate.
+    destruct (outgoing_from es n) as [|c1 [|c2 [|? ?]]]; try discriminate.
+    destruct (build f es c1) as [a|] eqn:Ha; [|discriminate].
+    destruct (build f es c2) as [b|] eqn:Hb; [|discriminate].
+    injection H as <-. apply IH in Ha. apply IH in Hb. cbn [height]. lia.
+  - injection H as <-. cbn [height]. lia.
+Qed.
+
+Lemma wf_edge_eq es e e' : NoDup (map re_id es) -> In e es -> In e' es -> re_id e = re_id e' -> e = e'.
+Proof.
+  intros Hnd H1 H2 Hid.
+  pose proof (topo_edge_in_unique es e Hnd H1) as A. pose proof (topo_edge_in_unique es e' Hnd H2) as B.
+  rewrite Hid in A. rewrite A in B. now injection B.
+Qed.
+
+Lemma embeds_fun es e : forall tr, embeds es e tr -> forall tr', embeds es e tr' -> tr = tr'.
+Proof.
+  intros tr H. induction H as [e Hin He | e n p c1 c2 a b Hin He Hi Ho Ha IHa Hb IHb]; intros tr' H'.
+  - inversion H' as [? ? ? | ? n' ? ? ? ? ? ? He']; subst; [reflexivity|congruence].
+  - inversion H' as [? ? He' | ? n' p' d1 d2 a' b' ? He' Hi' Ho' Ha' Hb']; subst; [congruence|].
+    assert (n' = n) by congruence. subst n'. rewrite Ho in Ho'. injection Ho' as <- <-.
+    f_equal; [now apply IHa|now apply IHb].
+Qed.
+
+Lemma memZ_In x l : memZ x l = true <-> In x l.
+Proof.
+  unfold memZ. rewrite existsb_exists. split.
+  - intros (y & Hy & E). apply Z.eqb_eq in E. now subst.
+  - intros H. exists x. split; [exact H|apply Z.eqb_refl].
+Qed.
+
+Lemma is_final_spec t e : wf_ids t -> In e (rt_edges t) ->
+  (memZ (re_id e) (topo_outgoing_edge_ids t) = true <-> re_end e = None).
+Proof.
+  intros Hwf Hin. rewrite memZ_In. unfold topo_outgoing_edge_ids. rewrite set_of_In, in_map_iff. split.
+  - intros (e' & Hid & Hf). apply filter_In in Hf. destruct Hf as [Hin' Hend].
+    assert (e' = e) by (eapply wf_edge_eq; eauto). subst e'.
+    destruct (re_end e); [discriminate|reflexivity].
+  - intros He. exists e. split; [reflexivity|]. apply filter_In. split; [exact Hin|]. now rewrite He.
+Qed.
+
+Definition frontier_ok (t : rtopo) (fuel : nat) (ids : list Z) : Prop :=
+  forall i, In i ids -> exists e tr, In e (rt_edges t) /\ re_id e = i /\ embeds (rt_edges t) e tr /\ (height tr < fuel)%nat.
+
+Lemma next_level_spec t e n c1 c2 : wf_ids t -> In e (rt_edges t) -> re_end e = Some n ->
+  outgoing_from (rt_edges t) n = [c1; c2] ->
+  forall j, In j (next_level t (re_id e)) <-> j = re_id c1 \/ j = re_id c2.
+Proof.
+  intros Hwf Hin He Ho j. unfold next_level, topo_edge. rewrite (topo_edge_in_unique _ e Hwf Hin), He.
+  unfold topo_outgoing. rewrite Ho, set_of_In. simpl. intuition.
+Qed.
+
+Lemma bfs_spec t : wf_ids t -> forall fuel ids, frontier_ok t fuel ids ->
+  forall x, In x (orig_fs fuel t ids) <->
+            exists i e tr, In i ids /\ In e (rt_edges t) /\ re_id e = i /\ embeds (rt_edges t) e tr /\ In x (leaves tr).
+Proof.
+  intros Hwf. induction fuel as [|f IH]; intros ids Hok x.
+  - cbn [orig_fs]. split; [contradiction|]. intros (i & e & tr & Hi & _).
+    destruct (Hok i Hi) as (? & ? & _ & _ & _ & Hh). lia.
+  - cbn [orig_fs]. destruct ids as [|i0 ids0] eqn:Hids.
+    { split; [contradiction|]. intros (i & e & tr & [] & _). }
+    rewrite <- Hids in *. clear Hids i0 ids0.
+    set (fs := topo_outgoing_edge_ids t).
+    assert (Hok' : frontier_ok t f (flat_map (next_level t) (filter (fun i => negb (memZ i fs)) ids))).
+    { intros j Hj. apply in_flat_map in Hj. destruct Hj as (i & Hi & Hj). apply filter_In in Hi.
+      destruct Hi as [Hi Hnf]. destruct (Hok i Hi) as (e & tr & Hin & Hid & Hemb & Hh). subst i.
+      inversion Hemb as [? ? He | ? n p c1 c2 a b ? He Hing Ho Ha Hb]; subst.
+      - exfalso. apply (is_final_spec t e Hwf Hin) in He. unfold fs in Hnf. rewrite He in Hnf. discriminate.
+      - apply (next_level_spec t e n c1 c2 Hwf Hin He Ho) in Hj. cbn [height] in Hh.
+        destruct (outgoing_In (rt_edges t) n c1) as [I1 _]; [rewrite Ho; now left|].
+        destruct (outgoing_In (rt_edges t) n c2) as [I2 _]; [rewrite Ho; right; now left|].
+        destruct Hj as [->| ->]; [exists c1, a|exists c2, b]; repeat split; auto; lia. }
+    rewrite in_app_iff, (IH _ Hok' x). split.
+    + intros [Hx|(j & e' & tr' & Hj & Hin' & Hid' & Hemb' & Hx)].
+      * apply filter_In in Hx. destruct Hx as [Hx Hfin]. destruct (Hok x Hx) as (e & tr & Hin & Hid & Hemb & _).
+        exists x, e, tr. repeat split; auto. subst x. apply (is_final_spec t e Hwf Hin) in Hfin.
+        inversion Hemb; subst; [now left|congruence].
+      * apply in_flat_map in Hj. destruct Hj as (i & Hi & Hj). apply filter_In in Hi. destruct Hi as [Hi Hnf].
+        destruct (Hok i Hi) as (e & tr & Hin & Hid & Hemb & _). subst i.
+        inversion Hemb as [? ? He | ? n p c1 c2 a b ? He Hing Ho Ha Hb]; subst.
+        -- exfalso. apply (is_final_spec t e Hwf Hin) in He. unfold fs in Hnf. rewrite He in Hnf. discriminate.
+        -- exists (re_id e), e, (Node (re_id e) a b). repeat split; auto.
+           apply (next_level_spec t e n c1 c2 Hwf Hin He Ho) in Hj.
+           destruct (outgoing_In (rt_edges t) n c1) as [I1 _]; [rewrite Ho; now left|].
+           destruct (outgoing_In (rt_edges t) n c2) as [I2 _]; [rewrite Ho; right; now left|].
+           cbn [leaves]. apply in_app_iff.
+           destruct Hj as [Hj|Hj].
+           ++ left. assert (e' = c1) by (eapply wf_edge_eq; eauto). subst e'.
+              now rewrite (embeds_fun _ _ _ Ha _ Hemb').
+           ++ right. assert (e' = c2) by (eapply wf_edge_eq; eauto). subst e'.
+              now rewrite (embeds_fun _ _ _ Hb _ Hemb').
+    + intros (i & e & tr & Hi & Hin & Hid & Hemb & Hx). subst i.
+      inversion Hemb as [? ? He | ? n p c1 c2 a b ? He Hing Ho Ha Hb]; subst.
+      * left. cbn [leaves] in Hx. destruct Hx as [<-|[]]. apply filter_In. split; [exact Hi|].
+        now apply (is_final_spec t e Hwf Hin).
+      * right. cbn [leaves] in Hx. apply in_app_iff in Hx.
+        destruct (outgoing_In (rt_edges t) n c1) as [I1 _]; [rewrite Ho; now left|].
+        destruct (outgoing_In (rt_edges t) n c2) as [I2 _]; [rewrite Ho; right; now left|].
+        assert (Hnf : negb (memZ (re_id e) fs) = true).
+        { destruct (memZ (re_id e) fs) eqn:E; [|reflexivity].
+          apply (is_final_spec t e Hwf Hin) in E. congruence. }
+        assert (Hfl : forall c, c = c1 \/ c = c2 ->
+                  In (re_id c) (flat_map (next_level t) (filter (fun i => negb (memZ i fs)) ids))).
+        { intros c Hc. apply in_flat_map. exists (re_id e). split; [apply filter_In; now split|].
+          apply (next_level_spec t e n c1 c2 Hwf Hin He Ho). destruct Hc as [->| ->]; auto. }
+        destruct Hx as [Hx|Hx]; [exists (re_id c1), c1, a|exists (re_id c2), c2, b]; repeat split; auto.
+Qed.
+
+Lemma sorted_perm_eq : forall l l', StronglySorted Z.le l -> StronglySorted Z.le l' -> Permutation l l' -> l = l'.
+Proof.
+  induction l as [|x l IH]; intros l' Hs Hs' Hp.
+  - apply Permutation_nil in Hp. now subst.
+  - destruct l' as [|y l']; [apply Permutation_sym, Permutation_nil in Hp; discriminate|].
+    inversion Hs as [|? ? Hs1 Hx]; subst. inversion Hs' as [|? ? Hs2 Hy]; subst.
+    rewrite Forall_forall in Hx, Hy.
+    assert (x = y).
+    { assert (A : In y (x :: l)) by (eapply Permutation_in; [symmetry; exact Hp|now left]).
+      assert (B : In x (y :: l')) by (eapply Permutation_in; [exact Hp|now left]).
+      destruct A as [->|A]; [reflexivity|]. destruct B as [->|B]; [reflexivity|].
+      specialize (Hx _ A). specialize (Hy _ B). lia. }
+    subst y. f_equal. apply IH; auto. eapply Permutation_cons_inv; eauto.
+Qed.
+
+Lemma NoDup_app_l (l m : list Z) : NoDup (l ++ m) -> NoDup l.
+Proof.
+  induction l as [|x l IH]; simpl; intros H; [constructor|].
+  inversion H as [|? ? Hni Hnd]; subst. constructor; [|now apply IH].
+  intros Hin. apply Hni. apply in_app_iff. now left.
+Qed.
+Lemma NoDup_app_r (l m : list Z) : NoDup (l ++ m) -> NoDup m.
+Proof. induction l as [|x l IH]; simpl; intros H; [exact H|]. inversion H; subst. now apply IH. Qed.
+
+Lemma set_sort_eq L M : (forall x, In x L <-> In x M) -> NoDup M -> Kin.sort (set_of L) = Kin.sort M.
+Proof.
+  intros Hiff Hnd. apply sorted_perm_eq; try apply sort_sorted.
+  rewrite !sort_perm. apply NoDup_Permutation; [apply set_of_NoDup|exact Hnd|].
+  intros x. rewrite set_of_In. apply Hiff.
+Qed.
+
+(** determine_attached_final_state of the code = sorted leaves of the subtree, at every embedded edge *)
+Theorem gen_att_refines t e tr : wf_ids t -> embeds (rt_edges t) e tr -> NoDup (leaves tr) ->
+  (height tr <= length (rt_edges t))%nat ->
+  gen_determine_attached_final_state t (re_id e) = Ok (att tr).
+Proof.
+  intros Hwf Hemb Hnd Hh. unfold gen_determine_attached_final_state, topo_edge.
+  inversion Hemb as [? Hin He | ? n p c1 c2 a b Hin He Hing Ho Ha Hb]; subst;
+    rewrite (topo_edge_in_unique _ e Hwf Hin); cbn [bind]; rewrite He; [reflexivity|].
+  cbn [att]. f_equal. unfold topo_originating_fs. apply set_sort_eq; [|exact Hnd].
+  destruct (outgoing_In (rt_edges t) n c1) as [I1 _]; [rewrite Ho; now left|].
+  destruct (outgoing_In (rt_edges t) n c2) as [I2 _]; [rewrite Ho; right; now left|].
+  assert (Hout : forall j, In j (topo_outgoing t n) <-> j = re_id c1 \/ j = re_id c2).
+  { intros j. unfold topo_outgoing. rewrite Ho, set_of_In. simpl. intuition. }
+  cbn [height] in Hh.
+  assert (Hok : frontier_ok t (S (length (rt_edges t))) (topo_outgoing t n)).
+  { intros j Hj. apply Hout in Hj. destruct Hj as [->| ->]; [exists c1, a|exists c2, b]; repeat split; auto; lia. }
+  intros x. rewrite (bfs_spec t Hwf _ _ Hok x). cbn [leaves]. rewrite in_app_iff. split.
+  - intros (i & e' & tr' & Hi & Hin' & Hid' & Hemb' & Hx). apply Hout in Hi. subst i.
+    destruct Hi as [Hi|Hi].
+    + left. assert (e' = c1) by (eapply wf_edge_eq; eauto). subst e'. now rewrite (embeds_fun _ _ _ Ha _ Hemb').
+    + right. assert (e' = c2) by (eapply wf_edge_eq; eauto). subst e'. now rewrite (embeds_fun _ _ _ Hb _ Hemb').
+  - intros [Hx|Hx]; [exists (re_id c1), c1, a|exists (re_id c2), c2, b]; repeat split; auto; apply Hout; auto.
+Qed.
+
+(* the whole tree *)
+Fixpoint tree_agrees (t : rtopo) (tr : tree) : Prop :=
+  gen_determine_attached_final_state t (eid tr) = Ok (att tr) /\
+  match tr with
+  | Leaf _ => True
+  | Node i a b =>
+      gen_get_sibling_state_id t (eid a) = Ok (eid b) /\ gen_get_sibling_state_id t (eid b) = Ok (eid a) /\
+      gen_get_parent_id t (eid a) = Ok (Some i) /\ gen_get_parent_id t (eid b) = Ok (Some i) /\
+      gen_is_opposite_helicity_state t (eid a) = Ok (is_opp a b) /\
+      gen_is_opposite_helicity_state t (eid b) = Ok (is_opp b a) /\
+      tree_agrees t a /\ tree_agrees t b
+  end.
+
+Lemma tree_agrees_att t tr : tree_agrees t tr -> gen_determine_attached_final_state t (eid tr) = Ok (att tr).
+Proof. destruct tr; cbn [tree_agrees]; tauto. Qed.
+
+Lemma embeds_agrees t : wf_ids t -> forall e tr, embeds (rt_edges t) e tr -> NoDup (leaves tr) ->
+  (height tr <= length (rt_edges t))%nat -> tree_agrees t tr.
+Proof.
+  intros Hwf e tr H. induction H as [e Hin He | e n p c1 c2 a b Hin He Hi Ho Ha IHa Hb IHb]; intros Hnd Hh.
+  - cbn [tree_agrees eid]. split; [|exact I].
+    apply (gen_att_refines t e (Leaf (re_id e)) Hwf); auto. now apply emb_leaf.
+  - assert (Hemb : embeds (rt_edges t) e (Node (re_id e) a b)) by (eapply emb_node; eauto).
+    cbn [leaves] in Hnd. cbn [height] in Hh.
+    assert (Hna : NoDup (leaves a)) by (eapply NoDup_app_l; eauto).
+    assert (Hnb : NoDup (leaves b)) by (eapply NoDup_app_r; eauto).
+    specialize (IHa Hna ltac:(lia)). specialize (IHb Hnb ltac:(lia)).
+    pose proof (embeds_links t Hwf _ _ Hemb) as L. cbn [tree_links] in L.
+    destruct L as (S1 & S2 & P1 & P2 & _ & _).
+    pose proof (tree_agrees_att _ _ IHa) as Aa. pose proof (tree_agrees_att _ _ IHb) as Ab.
+    cbn [tree_agrees]. split; [|repeat split; auto].
+    + change (eid (Node (re_id e) a b)) with (re_id e).
+      apply (gen_att_refines t e _ Hwf Hemb); cbn [leaves height]; auto.
+    + unfold is_opp. now apply gen_opposite_is_tuple_comparison with (y := eid b).
+    + unfold is_opp. now apply gen_opposite_is_tuple_comparison with (y := eid a).
+Qed.
+
+(** UNIVERSAL refinement: on every topology with distinct edge ids whose isobar tree [tree_of_topo] exists and has
+    distinct leaves, the translated helpers agree with the hand model Kin.v at every node. *)
+Theorem gen_helpers_refine_Kin t tr : wf_ids t -> tree_of_topo t = Some tr -> NoDup (leaves tr) -> tree_agrees t tr.
+Proof.
+  intros Hwf H Hnd. destruct (tree_of_topo_embeds _ _ H) as (e0 & Hin & _ & Hemb).
+  apply (embeds_agrees t Hwf e0 tr Hemb Hnd).
+  unfold tree_of_topo in H.
+  destruct (filter (fun e => oZ_eqb (re_orig e) None) (rt_edges t)) as [|x [|? ?]]; try discriminate.
+  destruct (re_end x); [|discriminate]. apply build_height in H. lia.
+Qed.
+
+(* decidable form of the hypotheses, for the non-vacuity example *)
+Fixpoint nodupb (l : list Z) : bool := match l with [] => true | x :: r => negb (memZ x r) && nodupb r end.
+Definition refine_hyps_ok (t : rtopo) : bool :=
+  nodupb (map re_id (rt_edges t)) && match tree_of_topo t with Some tr => nodupb (leaves tr) | None => false end.
